@@ -93,7 +93,7 @@ class Gen:
 
     ALL = {"str-special", "bigint", "float", "bool", "datetime", "tz", "uri", "qname-value", "lang", "typed-literal", "multi-value",
            "default-ns", "bundle-default-ns", "clash", "bundle", "anon", "repeat-id", "full-uri-name", "qname-object", "foreign-ns",
-           "formal-optional", "prov-attrs", "unregistered-datatype", "empty-string", "odd-prefix"}
+           "formal-optional", "prov-attrs", "unregistered-datatype", "empty-string", "odd-prefix", "cr", "default-ns-attr", "prov-subtype"}
 
     def __init__(self, seed, features=None):
         self.rng = random.Random(seed)
@@ -122,6 +122,10 @@ class Gen:
         used.add(k)
         if k == "str-special":
             s = rng.choice(STRINGS)
+            if "\r" in s:
+                if "cr" not in self.features:
+                    return "no carriage return"
+                used.add("cr")
             if s == "":
                 if "empty-string" not in self.features:
                     return "nonempty"
@@ -162,9 +166,14 @@ class Gen:
             return Literal("P1D", XSD["duration"])
         raise AssertionError(k)
 
-    def attrs(self, used, ns, maxn=3):
+    def attrs(self, used, ns, maxn=3, has_default=False):
         rng = self.rng
         out = []
+        if has_default and self.use(used, "default-ns-attr", 0.25):
+            out.append((rng.choice(["localattr", "other_local"]), self.value(used, ns)))
+        if self.use(used, "prov-subtype", 0.12):
+            out.append(("prov:type", PROV[rng.choice(["Revision", "Plan", "Person", "Collection", "Bundle", "Organization", "SoftwareAgent", "PrimarySource",
+                                                     "Quotation", "EmptyCollection"])]))
         for _ in range(rng.randint(0, maxn)):
             n = rng.choice(ns)
             name = n[rng.choice(["a", "b", "attr-c", "d_e"])]
@@ -261,7 +270,7 @@ class Gen:
                     else:
                         kw[pn] = self.ident(used, c, ns, ["r1", "r2"] if self.use(used, "repeat-id", 0.3) else ["r%d" % rng.randint(3, 999)])
                 elif pn == "other_attributes":
-                    kw[pn] = self.attrs(used, ns)
+                    kw[pn] = self.attrs(used, ns, has_default=c.get_default_namespace() is not None)
                 elif pn in ("time", "startTime", "endTime"):
                     if "datetime" in self.features and self.use(used, "formal-optional", 0.5):
                         dt = gen_datetime(rng)
